@@ -1,5 +1,6 @@
 import Vore.Driver.Print
 import Vore.Driver.Ops
+import Vore.Driver.ParseRes
 /-!
 # Driver — line protocol: one case per input line, one result line per case.
 `<id> TAB <op> TAB <field> …`
@@ -9,15 +10,37 @@ open Vore Vore.Driver
 def vmFuel : Nat := 400000
 def procFuel : Nat := 20000
 
+/-- per-command result lengths of the model, used to cut the implementation's concatenated
+result list into per-command lists (C03 is a statement about the result of one command) -/
+def groupLens (t : Bytes) (bc : List BCmd) : List Nat :=
+  bc.map (fun c => match runCmd procFuel vmFuel "text".toUTF8.toList t c with
+    | some (.ok ms) => ms.length
+    | _ => 0)
+
+def cutBy : List Nat → List Match → List (List Match)
+  | [], rest => if rest.isEmpty then [] else [rest]
+  | n :: ns, ms => ms.take n :: cutBy ns (ms.drop n)
+
+/-- property predicates evaluated on the implementation's result (4th field) -/
+def predsOn (lens : List Nat) (text : Bytes) (impl : String) : String :=
+  match parseMatches impl with
+  | none => "PRED na"
+  | some ms =>
+    if lens.foldl (· + ·) 0 != ms.length then "PRED na" else
+    "PRED faithful=" ++ boolStr ((cutBy lens ms).all (Spec.faithful text))
+
 def handleRun (fields : List String) : String :=
   match fields with
-  | ast :: text :: _ =>
+  | ast :: text :: rest =>
     match parseSExp ast >>= progOf, unhex text with
     | some cmds, some t =>
       match genProgram cmds {} with
       | .error _ => "CODE GENERR\tRES GENERR"
       | .ok bc =>
-        "CODE " ++ bytecodeStr bc ++ "\tRES " ++ resStr (runProgram procFuel vmFuel "text".toUTF8.toList t bc)
+        let pred := match rest with
+          | impl :: _ => "\t" ++ predsOn (groupLens t bc) t impl
+          | [] => ""
+        "CODE " ++ bytecodeStr bc ++ "\tRES " ++ resStr (runProgram procFuel vmFuel "text".toUTF8.toList t bc) ++ pred
     | _, _ => "BADCASE"
   | _ => "BADCASE"
 
